@@ -16,7 +16,7 @@ import (
 	"verif/wire"
 )
 
-var c12States = []string{"never-connected", "never-connected-signal-taken", "down-signal-taken", "dialing", "connect-write-blocked", "connack-read-blocked", "resend-write-blocked", "online-idle", "online-writer-blocked", "holding-message", "holding-big-message", "down", "pending-reconnect", "closed-already"}
+var c12States = []string{"never-connected", "never-connected-signal-taken", "down-signal-taken", "dialing", "connect-write-blocked", "connack-read-blocked", "resend-write-blocked", "online-idle", "online-writer-blocked", "holding-message", "holding-big-message", "writer-failed-unnoticed", "down", "pending-reconnect", "closed-already"}
 var c12Actions = []string{"Close", "Disconnect-nil", "Disconnect-open-quit", "Disconnect-closed-quit"}
 
 func runShutdown(c *run.Ctx, state string, actions []string, parkHook bool, pendingPubs int, adopted int) {
@@ -40,7 +40,12 @@ func runShutdown(c *run.Ctx, state string, actions []string, parkHook bool, pend
 		return sim.DialDecision{}
 	}
 	gatedWrite := false
+	failNextWrite := false
 	w.WritePlan = func(cn *sim.Conn, p []byte) sim.WriteDecision {
+		if failNextWrite && len(p) != 0 {
+			failNextWrite = false
+			return sim.WriteDecision{Accept: w.Rng.Intn(len(p)), Then: "error"}
+		}
 		if len(p) == 0 || gatedWrite {
 			return sim.WriteDecision{Accept: -1}
 		}
@@ -228,7 +233,7 @@ func runShutdown(c *run.Ctx, state string, actions []string, parkHook bool, pend
 			stuck("state " + state + " not reached")
 			return
 		}
-	case "online-idle", "online-writer-blocked", "holding-message", "holding-big-message", "pending-reconnect":
+	case "online-idle", "online-writer-blocked", "holding-message", "holding-big-message", "writer-failed-unnoticed", "pending-reconnect":
 		d.GrantWhenPaused(sim.StepTimeout)
 		if !w.WaitUntil(sim.StepTimeout, func() bool { return w.PointCountLocked("connect.resent") > 0 && w.ReaderQuietLocked() }) {
 			stuck("connect")
@@ -256,6 +261,22 @@ func runShutdown(c *run.Ctx, state string, actions []string, parkHook bool, pend
 			w.Broker.Publish("in/1", []byte("m"), 1, false)
 			if !w.WaitUntil(sim.StepTimeout, func() bool { return d.ReadCount() >= 1 }) {
 				stuck("message not returned")
+				return
+			}
+		case "writer-failed-unnoticed":
+			// the application is busy with a message; meanwhile a request's write
+			// fails, which leaves the connection pending with the signals online
+			w.Broker.Publish("in/1", []byte("m"), 1, false)
+			if !w.WaitUntil(sim.StepTimeout, func() bool { return d.ReadCount() >= 1 }) {
+				stuck("message not returned")
+				return
+			}
+			w.Mu.Lock()
+			failNextWrite = true
+			w.Mu.Unlock()
+			failed := d.Go("Publish", func() error { return cl.Publish(nil, []byte("x"), "t/fails") })
+			if !w.WaitUntil(sim.StepTimeout, func() bool { return failed.Returned() }) {
+				stuck("the failing request did not return")
 				return
 			}
 		case "pending-reconnect":
@@ -424,7 +445,7 @@ func runShutdown(c *run.Ctx, state string, actions []string, parkHook bool, pend
 	w.Mu.Lock()
 	dialsAfter := w.Dials
 	w.Mu.Unlock()
-	if dialsAfter > dialsAtAction+1 || dialsAfter > dialsAtAction && state != "pending-reconnect" && state != "down" && state != "never-connected" && state != "holding-message" && state != "holding-big-message" {
+	if dialsAfter > dialsAtAction+1 || dialsAfter > dialsAtAction && state != "pending-reconnect" && state != "down" && state != "never-connected" && state != "holding-message" && state != "holding-big-message" && state != "writer-failed-unnoticed" {
 		// one more dial may have been under way when the action hit
 		c.Violate("dial-after-close", fmt.Sprintf("the Dialer was invoked %d more times after the client was closed", dialsAfter-dialsAtAction), detail())
 	}
@@ -574,7 +595,7 @@ func init() {
 			return 1100
 		},
 		ChunkSize:   40,
-		Rule:        "state x action matrix, states reached deterministically by gating: never connected; Dialer blocked; CONNECT write blocked after 0..n bytes; CONNACK read blocked after 0-3 bytes; resend write blocked mid-packet; online idle (with Subscribe and Ping awaiting responses); online with 1-3 Publish calls and a Subscribe, the first blocked inside Write; application holding a returned message; down after a failed connect; connection lost and not yet redialled; closed already. Actions: 1-4 of Close, Disconnect(nil), Disconnect(open quit), Disconnect(closed quit) concurrently, optionally delayed at the close.locked/disconnect.locked hook points and with yields at connect hook points; 0-4 persisted publishes pending whose exchange channels are deliberately left undrained. Oracle: every action returns while the connection operations stay blocked (a Disconnect may wait for a held write, which is then released); no panic; ReadSlices reports ErrClosed without another dial; in-flight requests return; afterwards all nine public methods return ErrClosed, Close returns nil, Offline is released, Online blocked, and the pair was never seen released together (sampler running all along); every pending exchange holds an ErrClosed and is still open; every connection got closed; a Disconnect that returned nil made DISCONNECT the last packet of its connection; no goroutine with a library frame remains. Non-trivial: action issued in a non-idle state; distinct by (state, action multiset, hook delay, pending publishes).",
+		Rule:        "state x action matrix, states reached deterministically by gating: never connected; Dialer blocked; CONNECT write blocked after 0..n bytes; CONNACK read blocked after 0-3 bytes; resend write blocked mid-packet; online idle (with Subscribe and Ping awaiting responses); online with 1-3 Publish calls and a Subscribe, the first blocked inside Write; application holding a returned message; the same with a request's write having failed meanwhile (connection pending, signals still online); down after a failed connect; connection lost and not yet redialled; closed already. Actions: 1-4 of Close, Disconnect(nil), Disconnect(open quit), Disconnect(closed quit) concurrently, optionally delayed at the close.locked/disconnect.locked hook points and with yields at connect hook points; 0-4 persisted publishes pending whose exchange channels are deliberately left undrained. Oracle: every action returns while the connection operations stay blocked (a Disconnect may wait for a held write, which is then released); no panic; ReadSlices reports ErrClosed without another dial; in-flight requests return; afterwards all nine public methods return ErrClosed, Close returns nil, Offline is released, Online blocked, and the pair was never seen released together (sampler running all along); every pending exchange holds an ErrClosed and is still open; every connection got closed; a Disconnect that returned nil made DISCONNECT the last packet of its connection; no goroutine with a library frame remains. Non-trivial: action issued in a non-idle state; distinct by (state, action multiset, hook delay, pending publishes).",
 		Assumptions: []string{"promptness is decided structurally: the actions must return while the gates that block the connection operations stay closed", "goroutines get 2 s to wind down before they count as left behind"},
 		Run: func(c *run.Ctx) {
 			state := c12States[c.Case%len(c12States)]
